@@ -25,7 +25,7 @@ struct AB {
 }
 
 pub const ALPHABET: &[&str] = &[
-    "a", "é", "€", "😀", " ", "\n", "\r", "\r\n", "- ", ": ", "[", "]", "{", "}", ",", "\"", "'", "#", "&a ", "*a", "|\n", "---\n", "!t ", "\u{feff}", "\\", "1", "%", "...\n", "|+\n",
+    "a", "é", "€", "😀", " ", "\n", "\r", "\r\n", "- ", ": ", "[", "]", "{", "}", ",", "\"", "'", "#", "&a ", "*a", "|\n", "---\n", "!t ", "\u{feff}", "\\", "1", "%", "...\n", "|+\n", "!!", "!",
 ];
 
 /// (variant name, line, column) of an error; io errors carry no position
@@ -183,8 +183,26 @@ impl Prop for C09 {
         out
     }
     fn key(&self, c: &Case, clause: &str) -> String {
-        format!("{}|{:?}|{}", clause, c.text, TARGETS[c.target as usize])
+        // a `!!` handle that is not followed by a tag character (known finding: the parser's two tag scanners)
+        let bare = if has_bare_tag_handle(&c.text) { "|tag handle without suffix" } else { "" };
+        format!("{}|{:?}|{}{}", clause, c.text, TARGETS[c.target as usize], bare)
     }
+}
+
+/// `!!` followed by the end of the input, a blank, a line break or a flow indicator
+pub fn has_bare_tag_handle(text: &str) -> bool {
+    let b = text.as_bytes();
+    let mut i = 0;
+    while i + 1 < b.len() {
+        if b[i] == b'!' && b[i + 1] == b'!' {
+            match b.get(i + 2) {
+                None | Some(b' ' | b'\n' | b'\r' | b'\t' | b',' | b'[' | b']' | b'{' | b'}') => return true,
+                _ => {}
+            }
+        }
+        i += 1;
+    }
+    false
 }
 
 /// Records how a string was delivered.
